@@ -8,8 +8,8 @@ from ..obs import observe_call, obs_term
 
 ID = "C20"
 HEADER = "From A816 Require Import Oracle.C20o.\nRequire Import Run.GenBuses."
-CASE_TYPE = "case"
-CHECK = "check"
+CASE_TYPE = "anycase"
+CHECK = "check_any"
 THEOREMS = ["C20_low", "C20_low2", "C20_high", "C20_long_pointer", "C20_base_relative", "C20_live"]
 RULE = ("rom_to_snes / snes_to_rom / their round trip at every bank boundary +-{0,1,0x7FFF,0x8000} in the three modes, "
         "random offsets of the 4 MiB space (thorough: a dense stride sweep), out-of-range and negative offsets "
@@ -20,7 +20,12 @@ PROVED_NOTE = ("proved for every offset in range (all of Z, not a sweep): rom_to
                "offset; snes_to_rom maps it back (second variant below 0x200000); the two pointer formulas. "
                "Correspondence-only: that cpu_65c816.py/formulas.py compute what Model/Legacy.v computes "
                "(int(address / 0x8000) is float division: exact below 2^53).")
-EXHAUSTIVE = {"quick": False, "thorough": False}
+EXHAUSTIVE = {"quick": False, "thorough": True}
+P = 2147483629
+
+
+def weight(case):
+    return 25 if case["kind"] == "sweep" else 1
 MANIFEST = {
     "text": ("Coq theorems for all offsets in range over the Gallina model of rom_to_snes/snes_to_rom/formulas.py and the "
              "closed forms of the built-in buses (instantiated each run on the regenerated live buses); model tied to the "
@@ -60,6 +65,11 @@ def cases(ctx):
         for m in ("low", "low2", "high"):
             out.append({"kind": "r2s", "o": o, "mode": m})
             out.append({"kind": "round", "o": o, "mode": m})
+    # exhaustive sweeps: every offset of the 4 MiB space in each mode (thorough); two 64K chunks (quick)
+    for m in ("low", "low2", "high"):
+        for chunk in (range(0, 64) if tier == "thorough" else (0, 0x37)):
+            for fn in ("r2s", "round"):
+                out.append({"kind": "sweep", "mode": m, "chunk": chunk, "fn": fn})
     for a in sorted({rng.randrange(0, 1 << 24) for _ in range(400)} |
                     {0, 0x8000, 0x7FFF, 0x808000, 0x807FFF, 0xC00000, 0xBFFFFF, 0xFFFFFF, 0x1000000, -1}):
         out.append({"kind": "s2r", "a": a})
@@ -79,6 +89,21 @@ def observe(case):
     from script.formulas import base_relative_16bits_pointer_formula, long_low_rom_pointer
     rt = {"low": RomType.low_rom, "low2": RomType.low_rom_2, "high": RomType.high_rom}
     k = case["kind"]
+    if k == "sweep":
+        mode, limit = case["mode"], {"low": 0x380000, "low2": 0x280000, "high": 0x400000}[case["mode"]]
+        acc = acc_in = 0
+        base = case["chunk"] << 16
+        for i in range(65536):
+            o = base + i
+            v = rom_to_snes(o, rt[mode])
+            if case["fn"] == "round":
+                v = snes_to_rom(v)
+                specified = o < limit and not (mode == "low2" and o >= 0x200000)
+            else:
+                specified = o < limit
+            acc = (acc * 31 + (i + 1) * v) % P
+            acc_in = (acc_in * 31 + (i + 1) * (v if specified else 0)) % P
+        return {"ok": [acc, acc_in]}
     if k == "r2s":
         return observe_call(lambda: rom_to_snes(case["o"], rt[case["mode"]]))
     if k == "round":
@@ -91,6 +116,15 @@ def observe(case):
 
 
 def coq_term(case, ob):
+    k = case["kind"]
+    if k == "sweep":
+        impl = ob.get("ok") or [-1, -1]
+        fn = "SwR2S" if case["fn"] == "r2s" else "SwRound"
+        return f"Swept (Sweep {MODE[case['mode']]} {C.z(case['chunk'])} {fn} {C.z(impl[0])} {C.z(impl[1])})"
+    return "Plain (" + _plain_term(case, ob) + ")"
+
+
+def _plain_term(case, ob):
     k = case["kind"]
     if k == "r2s":
         return f"CR2S {C.z(case['o'])} {MODE[case['mode']]} {obs_term(ob, C.z)}"
@@ -106,7 +140,7 @@ def coq_term(case, ob):
 def nontrivial_key(case, ob):
     if "ok" not in ob:
         return None
-    return [case[k] for k in sorted(case)]
+    return [str(case[k]) for k in sorted(case)]
 
 
 def tags(case, ob):
